@@ -80,6 +80,11 @@ func vfHSWorld(t *testing.T) (*supervisor.Supervisor, vfHSMapper) {
 func vfHSRecover(fn func()) (panicked bool, text, site string) {
 	defer func() {
 		if r := recover(); r != nil {
+			if r == http.ErrAbortHandler {
+				// deliberate: serveHTTP aborts the connection of a truncated stream response this
+				// way (net/http recovers it silently); not a crash
+				return
+			}
 			panicked = true
 			text = fmt.Sprint(r)
 			st := string(debug.Stack())
@@ -227,6 +232,15 @@ func TestVerifC13HTTPServer(t *testing.T) {
 			method := g.pick("req", "method", "GET", "POST", "OPTIONS", "FOO")
 			host := g.pick("req", "host", "example.com", "a.example.com:8080", "a", "")
 			path := g.pick("req", "path", "/", "/a", "/a/b", "/status", "/x", "/.well-known/acme-challenge/tok")
+			var wantHdr [][2]string
+			targeted := false
+			if tgt := vfHSPickTarget(g, tree); tgt != nil && g.chance("req", "targeted", 65) {
+				// a request derived from one configured (rule, path) entry: near-miss variants of its
+				// path / host / method, headers that satisfy its header matchers
+				targeted = true
+				method, host, path, wantHdr = vfHSDerive(g, tgt, method, host, path)
+				vf.Class("targeted-request")
+			}
 			remote := g.pick("req", "remote", "127.0.0.1:999", "10.1.2.3:1", "[::1]:5", "192.0.2.1:7", "garbage")
 			body := g.pick("req", "body", "", "hello", "0123456789012345678901234567890123456789")
 			chunked := g.chance("req", "chunked", 30)
@@ -248,10 +262,13 @@ func TestVerifC13HTTPServer(t *testing.T) {
 					req.Header.Set(h, "zzz")
 				}
 			}
+			for _, h := range wantHdr {
+				req.Header.Set(h[0], h[1])
+			}
 			if g.chance("req", "xff", 30) {
 				req.Header.Set("X-Forwarded-For", g.pick("req", "xffv", "203.0.113.7", "10.0.0.9, 127.0.0.1", "garbage"))
 			}
-			class := fmt.Sprintf("%s %s host=%s remote=%s body=%d chunked=%v", method, path, host, remote, len(body), chunked)
+			class := fmt.Sprintf("%s %s host=%s remote=%s body=%d chunked=%v targeted=%v", method, path, host, remote, len(body), chunked, targeted)
 			w := httptest.NewRecorder()
 			if p, txt, site := vfHSRecover(func() { r.mux.ServeHTTP(w, req) }); p {
 				vf.Case(len(g.present) > 0, "handle|"+dk+"|"+class, nil)
@@ -333,4 +350,142 @@ func TestVerifReproC13HTTPServer(t *testing.T) {
 			t.Logf("accepted and applied without a panic")
 		})
 	}
+}
+
+// ------------------------------------------------------------------ requests derived from the spec
+
+type vfHSTarget struct {
+	rule map[string]interface{}
+	path map[string]interface{}
+}
+
+// vfHSPickTarget picks one configured (rule, path) entry of the generated tree, preferring entries
+// with a rewriteTarget, header matchers or regular expressions.
+func vfHSPickTarget(g *vfG, tree map[string]interface{}) *vfHSTarget {
+	var all, rich []*vfHSTarget
+	rules, _ := tree["rules"].([]interface{})
+	for _, r := range rules {
+		rm, ok := r.(map[string]interface{})
+		if !ok {
+			continue
+		}
+		paths, _ := rm["paths"].([]interface{})
+		for _, p := range paths {
+			pm, ok := p.(map[string]interface{})
+			if !ok {
+				continue
+			}
+			t := &vfHSTarget{rule: rm, path: pm}
+			all = append(all, t)
+			rt, _ := pm["rewriteTarget"].(string)
+			hs, _ := pm["headers"].([]interface{})
+			re, _ := pm["pathRegexp"].(string)
+			hre, _ := rm["hostRegexp"].(string)
+			if rt != "" || len(hs) > 0 || re != "" || hre != "" {
+				rich = append(rich, t)
+			}
+		}
+	}
+	if len(rich) > 0 && g.chance("req", "rich-target", 75) {
+		return rich[g.intn("req", "rich-i", 0, len(rich)-1)]
+	}
+	if len(all) == 0 {
+		return nil
+	}
+	return all[g.intn("req", "target-i", 0, len(all)-1)]
+}
+
+// vfHSPathVariant derives a request path from a configured one.
+func vfHSPathVariant(g *vfG, p string) string {
+	if p == "" || p[0] != '/' {
+		return "/"
+	}
+	switch g.pick("req", "path-variant", "same", "slash-added", "slash-removed", "upper", "double-slash", "percent", "extra-segment", "cut", "empty-segment", "dot-segment") {
+	case "slash-added":
+		return p + "/"
+	case "slash-removed":
+		if len(p) > 1 {
+			return strings.TrimSuffix(p, "/")
+		}
+	case "upper":
+		return strings.ToUpper(p)
+	case "double-slash":
+		return "/" + p
+	case "percent":
+		for i := 1; i < len(p); i++ {
+			if p[i] >= 'a' && p[i] <= 'z' {
+				return fmt.Sprintf("%s%%%02X%s", p[:i], p[i], p[i+1:])
+			}
+		}
+	case "extra-segment":
+		return strings.TrimSuffix(p, "/") + "/extra"
+	case "cut":
+		if len(p) > 1 {
+			return p[:len(p)-1]
+		}
+	case "empty-segment":
+		return p + "//x"
+	case "dot-segment":
+		return p + "/./"
+	}
+	return p
+}
+
+func vfHSDerive(g *vfG, t *vfHSTarget, method, host, path string) (string, string, string, [][2]string) {
+	// path
+	if p, _ := t.path["path"].(string); p != "" && g.chance("req", "from-path", 70) {
+		path = vfHSPathVariant(g, p)
+	} else if p, _ := t.path["pathPrefix"].(string); p != "" {
+		path = vfHSPathVariant(g, p)
+	} else if re, _ := t.path["pathRegexp"].(string); re != "" {
+		path = g.pick("req", "re-path", "/a", "/a/", "/x1", "/x12/", "/A")
+	}
+	// host
+	if h, _ := t.rule["host"].(string); h != "" {
+		switch g.pick("req", "host-variant", "same", "port", "upper", "dot", "dot-port") {
+		case "same":
+			host = h
+		case "port":
+			host = h + ":8080"
+		case "upper":
+			host = strings.ToUpper(h)
+		case "dot":
+			host = h + "."
+		case "dot-port":
+			host = h + ".:80"
+		}
+	}
+	// method
+	if ms, _ := t.path["methods"].([]interface{}); len(ms) > 0 {
+		m := fmt.Sprint(ms[g.intn("req", "method-i", 0, len(ms)-1)])
+		if m != "" && m != "FOO" {
+			method = m
+			if g.chance("req", "method-lower", 15) {
+				method = strings.ToLower(m)
+			}
+		}
+	}
+	// headers satisfying the matchers
+	var hdr [][2]string
+	hs, _ := t.path["headers"].([]interface{})
+	for _, h := range hs {
+		hm, ok := h.(map[string]interface{})
+		if !ok {
+			continue
+		}
+		k, _ := hm["key"].(string)
+		if k == "" || strings.ContainsAny(k, " :") {
+			continue
+		}
+		v := "v1"
+		if vs, _ := hm["values"].([]interface{}); len(vs) > 0 {
+			v = fmt.Sprint(vs[0])
+		} else if re, _ := hm["regexp"].(string); re == "^z" {
+			v = "zzz"
+		}
+		if g.chance("req", "hdr-satisfy", 85) {
+			hdr = append(hdr, [2]string{k, v})
+		}
+	}
+	return method, host, path, hdr
 }
